@@ -236,9 +236,15 @@ def run_check(spec: CheckSpec, tier: str, seed: int, workers: int | None = None,
     seen_oracles: set = set()
     min_count: dict = {}
     n_viol = 0
+    pairs = []
     for r in viol_runs:
+        seen_here = set()
+        for v in results[r]["violations"]:
+            if v["oracle"] not in seen_here:
+                seen_here.add(v["oracle"])
+                pairs.append((r, v))
+    for r, v in pairs:
         d = results[r]
-        v = d["violations"][0]
         oid = v["oracle"]
         doc = {
             "property": spec.pid,
